@@ -116,7 +116,7 @@ Fixpoint delete_last (cs : list cop) : bool :=
 (* ---- the child table ------------------------------------------------------------------ *)
 Definition apart_matches (a : apart) (f : string * ftype) : bool :=
   match a, snd f with
-  | AOne lit fld, FNode _ => String.eqb lit (fst f) && String.eqb fld (fst f)
+  | AOne lit fld, FNode _ | AOneG lit fld, FNode _ => String.eqb lit (fst f) && String.eqb fld (fst f)
   | AMany lit, FList _ => String.eqb lit (fst f)
   | APkgFiles, FMapFiles => true
   | _, _ => false
@@ -132,11 +132,11 @@ Definition apply_tbl_ok (u : universe_t) (tbl : list (string * list apart)) : bo
   forallb (fun e => apply_kind_ok u tbl (fst e)) u.
 
 Definition apart_name (a : apart) : string :=
-  match a with AOne l _ => l | AMany l => l | APkgFiles => "Files" | AUnknown _ => "?" end.
+  match a with AOne l _ | AOneG l _ => l | AMany l => l | APkgFiles => "Files" | AUnknown _ => "?" end.
 
 Definition apart_same (a b : apart) : bool :=
   match a, b with
-  | AOne l f, AOne l' f' => String.eqb l l' && String.eqb f f'
+  | AOne l f, AOne l' f' | AOneG l f, AOneG l' f' => String.eqb l l' && String.eqb f f'
   | AMany l, AMany l' => String.eqb l l'
   | APkgFiles, APkgFiles => true
   | _, _ => false
